@@ -15,6 +15,7 @@ import (
 	"crypto/sha256"
 	"encoding/hex"
 	"fmt"
+	"io"
 	"os"
 	"reflect"
 	"runtime"
@@ -23,6 +24,7 @@ import (
 	"strings"
 	"sync"
 	"sync/atomic"
+	"syscall"
 	"testing"
 	"testing/synctest"
 )
@@ -189,6 +191,21 @@ func (f *Fault) Error() string {
 type FaultSpec struct {
 	Ordinal int  `json:"ordinal"`
 	After   bool `json:"after,omitempty"` // perform the real call, then report failure
+	// As selects the identity of the injected error: "" = *simrt.Fault,
+	// "unexpected-eof" = io.ErrUnexpectedEOF (a torn read), "enospc" and
+	// "efbig" = *os.PathError wrapping the errno (a full disk / size limit).
+	As string `json:"as,omitempty"`
+}
+
+// Unfaultable reports the I/O kinds no fault is injected into: the property
+// lists creation, write, sync, seek and read failures; closing and removing
+// are outside it.
+func Unfaultable(kind string) bool {
+	switch kind {
+	case "close", "remove", "removeall", "rename", "chmod", "chdir":
+		return true
+	}
+	return false
 }
 
 // IORecord describes one I/O operation executed in a run.
@@ -213,7 +230,9 @@ type Config struct {
 	// ordinal lands on another kind (possible when a fault position learnt in
 	// one schedule is paired with a different schedule) does not fire.
 	FaultKinds map[string]bool
-	Expect     [][]int // replay: expected enabled sets, checked step by step
+	// FaultAll: every kind may be hit except those Unfaultable reports.
+	FaultAll bool
+	Expect   [][]int // replay: expected enabled sets, checked step by step
 }
 
 // Sim is one simulated run.
@@ -961,9 +980,21 @@ func (s *Sim) release(g *G) {
 			s.ioN++
 			rec := IORecord{Ordinal: ord, Kind: p.ioKind, Site: p.site, G: g.ID, Step: s.steps}
 			g.ioMode, g.ioErr = 0, nil
-			if f, ok := s.faultAt[ord]; ok && (s.cfg.FaultKinds == nil || s.cfg.FaultKinds[p.ioKind]) {
+			allowed := s.cfg.FaultKinds == nil || s.cfg.FaultKinds[p.ioKind]
+			if s.cfg.FaultAll {
+				allowed = !Unfaultable(p.ioKind)
+			}
+			if f, ok := s.faultAt[ord]; ok && allowed {
 				rec.Faulted = true
 				g.ioErr = &Fault{Kind: p.ioKind, Ordinal: ord, After: f.After}
+				switch f.As {
+				case "unexpected-eof":
+					g.ioErr = io.ErrUnexpectedEOF
+				case "enospc":
+					g.ioErr = &os.PathError{Op: p.ioKind, Path: "simulated", Err: syscall.ENOSPC}
+				case "efbig":
+					g.ioErr = &os.PathError{Op: p.ioKind, Path: "simulated", Err: syscall.EFBIG}
+				}
 				if f.After {
 					g.ioMode = 2
 				} else {
